@@ -72,7 +72,9 @@ Definition peer_hosts (env : peer) (n : ninfo) : bool :=
      connection the message arrived on
    4 a message whose claimed sender is absent, not in the tree or hosted by
      another server than the connection's peer was delivered
-   5 the receiving process crashed on the message instead of refusing it *)
+   5 the receiving process crashed on the message instead of refusing it
+   6 a handler / channel received a (node, message) pair whose content matches no
+     message injected to that instance: it cannot come from the member it names *)
 Definition elem_clauses (ns : list ninfo) (msgs : list inj) (inst : nat) (e : oelem) : list nat :=
   match o_node e with
   | ONil => [1]
@@ -82,7 +84,7 @@ Definition elem_clauses (ns : list ninfo) (msgs : list inj) (inst : nat) (e : oe
       | None => [2]
       | Some n =>
           match find_msg msgs inst (o_payload e) with
-          | None => []
+          | None => [6]
           | Some x =>
               clause 3 (peer_hosts (i_env x) n) ++
               clause 4 (negb (invalid_b ns (w_from (i_wire x)) (i_env x)))
